@@ -71,6 +71,8 @@ type WorkerResult struct {
 	// Scheds are the distinct schedule hashes ((task, site) sequences) of the
 	// concurrent blocks executed.
 	Scheds []uint64 `json:"scheds,omitempty"`
+	// SkipReasons counts abandoned runs by reason class.
+	SkipReasons map[string]int `json:"skip_reasons,omitempty"`
 }
 
 // Prefixes maps a property to the function that forces the leading choices of
@@ -141,6 +143,14 @@ func RunBatch(prop, tier string, seed uint64, start, count int, known map[string
 		res.Runs++
 		if skipped != "" {
 			res.Skipped++
+			if res.SkipReasons == nil {
+				res.SkipReasons = map[string]int{}
+			}
+			class := skipped
+			if i := strings.Index(class, ":"); i > 0 {
+				class = class[:i]
+			}
+			res.SkipReasons[class]++
 		}
 		for _, k := range SortedKeys(r.Faults) {
 			res.Faults[k] += r.Faults[k]
